@@ -254,6 +254,76 @@ def gen_crashpoints(r):
     return h
 
 
+def redistribute_lag(h, t, idx_last):
+    """While the consumer stayed away ("lag" .. "drain") the driver did not read Commit(); the drain step has
+    everything in the order the queue handed it out.  Give each step of the lag period as many of those
+    events as its lastExec moved (a Go channel is FIFO: hand-over order = order of taking), so that the
+    trace has the events where they were produced.  Returns a copy of the steps."""
+    steps = [dict(s, ev=s.get("ev") or []) for s in t["steps"]]
+    lagging, period = False, []
+    for i, op in enumerate(h["ops"]):
+        k = i + 1
+        if k >= len(steps):
+            break
+        if op[0] == "lag":
+            lagging, period = True, []
+        elif op[0] == "drain" and lagging:
+            evs = list(steps[k]["ev"])
+            for j in period:
+                n = steps[j]["st"][idx_last] - steps[j - 1]["st"][idx_last]
+                if n > 0:
+                    steps[j]["ev"] = evs[:n]
+                    evs = evs[n:]
+            steps[k]["ev"] = evs          # anything left was not accounted for by lastExec: stays here
+            lagging = False
+        elif lagging:
+            period.append(k)
+    return steps
+
+
+def gen_raft_backlog(r, big=False):
+    """an executor backlog above the capacity of the commit queue (1024): the consumer stays away while more
+    than 1024 blocks are applied, then drains"""
+    # goroutines that complete an overflowing hand-over in the background start in creation order as long as
+    # they fit the scheduler's local run queue (256); a few hundred of them are needed to see another order
+    k = 1024 + (r.choice([600, 1076]) if big else r.choice([300, 340, 400]))
+    # goroutine start order depends on the schedule; one P makes the newest goroutine run first
+    h = dict(kind="raft", init=1, snap=r.choice([1000, 5000]), batch=1, id=1, style="backlog", procs=r.choice([1, 2, 0]), ops=[])
+    ops = h["ops"]
+    ops.append(["ready", 0, 0, 0, 3])
+    ops.append(["lag"])
+    ops.append(["ents", k, 2])
+    left = k
+    while left > 0:
+        n = min(left, r.choice([300, 512, 700, 1024]))
+        ops.append(["ready", 0, n, 0, 0])
+        left -= n
+    ops.append(["drain"])
+    ops += [["exec"], ["exec"], ["report", 0], ["ents", 2, k + 2], ["ready", 0, 5, 0, 0]]
+    return h
+
+
+def gen_solo_lag(r):
+    """solo with an executor that is some blocks behind: order k small batches while nobody reads Commit()"""
+    init = r.choice([1, 5, 9])
+    h = dict(kind="solo", init=init, batch=1, style="lag", ops=[])
+    ops = h["ops"]
+    ntx = 1
+    for _ in range(r.randrange(0, 3)):
+        ntx += 1
+        ops.append(["tx", ntx * 100, 1])
+    ops.append(["lag"])
+    for _ in range(r.randrange(2, 9)):
+        ntx += 1
+        ops.append(["tx", ntx * 100, 1])
+    ops.append(["drain"])
+    for _ in range(r.randrange(0, 4)):
+        ops.append(r.choice([["exec"], ["exec"], ["report", 0]]))
+    ntx += 1
+    ops.append(["tx", ntx * 100, 1])
+    return h
+
+
 def gdef(d):
     return "(mkD %s %s %s %s %s)" % tuple("true" if d.get(k) else "false" for k in ("restart", "snap", "solo10", "snapin", "early"))
 
@@ -284,14 +354,16 @@ def canon_index(init, log):
 
 def raft_resolve(h, t):
     """-> (log as python list of (kind,h,txs,origin), model ops as strings, observations) from a history and its trace"""
-    log, ops = [], []
-    steps = t["steps"]
+    log, ops, obs = [], [], []
+    steps = redistribute_lag(h, t, 0)
+    blank = dict(ev=[], st=[], bai=[])
 
     def ghost(evs):
         ci = canon_index(h["init"], log)
         return glist([(ci.get(b["h"], 0), b) for b in evs], gib)
     for op, st in zip(h["ops"], steps[1:]):
         name = op[0]
+        obs.append(st)
         if name in ("ent", "entp"):
             if st.get("ent") is not None:
                 e = st["ent"]
@@ -299,6 +371,15 @@ def raft_resolve(h, t):
                 ops.append("OAppend")
             else:
                 ops.append("ONop")
+        elif name == "ents":
+            n, h0 = st["r"][:2]
+            for i in range(n):
+                log.append((1, h0 + i, [], "ent"))
+                ops.append("OAppend")
+            obs.pop()
+            obs += [blank] * (n - 1) + [st]
+        elif name in ("lag", "drain"):
+            ops.append("ONop")
         elif name == "dropp":
             ops.append("ONop")
         elif name == "ready":
@@ -319,7 +400,7 @@ def raft_resolve(h, t):
             ops.append("OPropose %d" % len(st.get("prop") or []))
         else:
             raise ValueError(name)
-    return log, ops, steps[:len(ops) + 1]
+    return log, ops, [steps[0]] + obs
 
 
 def gen_glue(r):
@@ -562,8 +643,19 @@ def gen_solo(r, maxops=24):
 
 def solo_row(h, t, flags):
     ops = []
-    steps = t["steps"]
-    for op, st in zip(h["ops"], steps[1:]):
+    steps = redistribute_lag(h, t, 0)
+    pairs = list(zip(h["ops"], steps[1:]))
+    # "lag" / "drain" are not steps of the node; events a drain could not attribute stay visible on the step before it
+    kept = []
+    for op, st in pairs:
+        if op[0] in ("lag", "drain"):
+            if st["ev"] and kept:
+                kept[-1] = (kept[-1][0], dict(kept[-1][1], ev=kept[-1][1]["ev"] + st["ev"]))
+            continue
+        kept.append((op, st))
+    hops = [op for op, _ in kept]
+    steps = [steps[0]] + [st for _, st in kept]
+    for op, st in zip(hops, steps[1:]):
         name = op[0]
         if name == "tx":
             ops.append("STx %d" % op[1])
@@ -585,7 +677,7 @@ def solo_row(h, t, flags):
         if op is not None and op[0] == "report" and len(r) > 2:
             code, still = r[1], r[2]
         return "{| so_ev := %s; so_st := %s; so_r := %d; so_still := %d |}" % (glist(st["ev"], gblk), glist(st["st"]), code, still)
-    obs = [so(steps[0])] + [so(st, op) for op, st in zip(h["ops"], steps[1:])]
+    obs = [so(steps[0])] + [so(st, op) for op, st in zip(hops, steps[1:])]
     return "(%s, %d, %s, %s)" % (gdef(flags), h["init"], glist(ops), glist(obs))
 
 
@@ -843,6 +935,10 @@ def run_order(ctx, known):
     hs += [gen_real(r) for _ in range(n_real)]
     hs += [gen_sync(r) for _ in range(60 if ctx.quick else 3000)]
     hs += [gen_glue(r) for _ in range(24 if ctx.quick else 400)]
+    hs += [gen_solo_lag(r) for _ in range(16 if ctx.quick else 300)]
+    hs += [gen_raft_backlog(r) for _ in range(0 if ctx.quick else 4)]    # quick: the corpus has one
+    if not ctx.quick:
+        hs += [gen_raft_backlog(r, big=True) for _ in range(3)]
     outs, msg = run_order_batch(exe, hs)
     if outs is None:
         ctx.broken("driver:order", msg)
@@ -893,6 +989,12 @@ def run_order(ctx, known):
         dist["events:" + kind] = dist.get("events:" + kind, 0) + nev
         if kind == "raft":
             dist["style:" + h.get("style", "corpus")] = dist.get("style:" + h.get("style", "corpus"), 0) + 1
+        if t.get("changed"):
+            key = ("violation", "changed", kind)
+            if key not in reported:
+                reported.add(key)
+                ctx.violation("a commit event taken from Order.Commit() changed its content afterwards (%d event(s))" % t["changed"],
+                              dict(property="C20", driver="order", history=h, impl=t, what="delivered event changed"))
         if v == (9, 0) or v == (9, 1):
             if t.get("err") == "worker died" and t.get("stderr") is not None:
                 key = ("violation", "died", kind)
